@@ -122,7 +122,11 @@ func (c OptionalColumn) ReadOr(s string) string {
 	if c.i < 0 {
 		return s
 	}
-	return c.f.currentRow.cells[c.i]
+	// A blank cell is equivalent to the column being absent.
+	if v := c.f.currentRow.cells[c.i]; v != "" {
+		return v
+	}
+	return s
 }
 
 func (f *File) NextRow() bool {
